@@ -13,6 +13,8 @@ R07.4 (siblings, inlined value-flow summaries) origin of every object: each add_
 R07.5 (AST) each IFLR body starts with the OBNAME of the frame / no-format object it was constructed with.
 R07.6 = C09 R09.1 (definitions precede the indirectly formatted records).
 R07.7 = C06 R06.3 for IDENT: the name written is exactly the string the copy numbers were computed from.
+R07.8 (shared, = C02 R02.1/2/4/5 + C10 R10.1-3) the transport below the records: segments partition each body in order with
+      correct bracketing and padding, the output buffer and the byte writer hand on exactly those bytes.
 """
 
 from __future__ import annotations
@@ -42,6 +44,8 @@ def run(chk):
     chk.guard(r07_5_iflr_reference, chk)
     chk.guard(r07_6_order, chk)
     chk.guard(r07_7_name_written_is_name_compared, chk)
+    from ._layout import transport_integrity
+    chk.guard(transport_integrity, chk, "R07.8")
 
 
 def r07_7_name_written_is_name_compared(chk):
